@@ -89,6 +89,8 @@ def runMerge (c : Json) : R Json := do
       | [] => pure (Json.mkObj [("stage", "done"), ("res", viewOnly cfg)])
       | s :: rest => do
         let o ← getOpts s "opts"
+        -- "restart": start over from a fresh A
+        let cfg := if boolFieldD s "restart" false then cfg0 else cfg
         -- "self": the config is merged into itself (the very same object is source and destination)
         let b ← if boolFieldD s "self" false then pure (GoData.cfg cfg) else parseGoData ((optField s "b").getD .null)
         match cfgMerge o cfg b with
@@ -300,6 +302,7 @@ def mergeOracle (c : Json) : R (Option Json) := do
         | s :: rest => do
           let b ← parseGoData ((optField s "b").getD .null)
           let self := boolFieldD s "self" false
+          let t := if boolFieldD s "restart" false then t0 else t
           match b, self with
           | .nil, false => go t rest
           | _, _ =>
